@@ -99,6 +99,12 @@ def do_replay(prop, path):
     return 1
 
 
+def _enum_total(engine):
+    if hasattr(engine, 'subs'):
+        return sum(e.enum_total() for _, e in engine.subs if hasattr(e, 'enum_total'))
+    return engine.enum_total() if hasattr(engine, 'enum_total') else 0
+
+
 def run_check(prop, tier, verif_seed, nruns, jobs, wall_cap, evidence_path=None, quiet=False,
               start=0, write_evidence=True):
     engine = registry.get(prop)
@@ -111,6 +117,8 @@ def run_check(prop, tier, verif_seed, nruns, jobs, wall_cap, evidence_path=None,
     def on_result(rec):
         agg['runs'] += 1
         agg['digests'].append((rec['i'], rec['digest']))
+        if rec.get('enumerated'):
+            agg['enumerated'] = agg.get('enumerated', 0) + 1
         st = rec.get('stats') or {}
         agg['steps'] += st.get('steps', 0)
         for k, v in (st.get('faults') or {}).items():
@@ -123,6 +131,9 @@ def run_check(prop, tier, verif_seed, nruns, jobs, wall_cap, evidence_path=None,
             elif isinstance(v, list):
                 agg['extra'].setdefault(k, set()).update(v)
         agg['transitions'].update(st.get('transitions') or [])
+        if st.get('cov'):
+            agg.setdefault('cov', set()).update(st['cov'])
+            agg['cov_runs'] = agg.get('cov_runs', 0) + 1
         if rec.get('sdig'):
             agg['sdigs'].add(rec['sdig'])
             if rec.get('nontrivial') and rec['verdict'] in ('held', 'violation'):
@@ -208,11 +219,23 @@ def run_check(prop, tier, verif_seed, nruns, jobs, wall_cap, evidence_path=None,
         'violating_runs': len(agg['viol']),
         'known_finding_hits': {k: v[1] for k, v in known_hits.items()},
         'batch_digest': batch_digest,
+        'bounded_exhaustive_sequences_run': agg.get('enumerated', 0),
+        'bounded_exhaustive_sequences_total': _enum_total(engine),
         'jobs': jobs,
         'darr_tree': repo_rev(),
     }
     for k, v in agg['extra'].items():
         cov[k] = sorted(v) if isinstance(v, set) else v
+    if agg.get('cov'):
+        ex = core.executable_lines()
+        per = {}
+        for item in agg['cov']:
+            f, l = item.rsplit(':', 1)
+            per.setdefault(f, set()).add(int(l))
+        cov['darr_line_coverage_in_sampled_runs'] = {
+            'sampled_runs': agg.get('cov_runs', 0),
+            'files': {f: f'{len(per.get(f, set()) & ex[f])}/{len(ex[f])}' for f in sorted(ex)},
+            'note': 'lines of /repo/darr executed by the measured runs of this check (sys.monitoring); reach, not a verdict'}
     cov.update(engine.extra_coverage(agg) if hasattr(engine, 'extra_coverage') else {})
     ev = {'property_id': prop, 'tier': tier, 'seed': verif_seed, 'level': engine.level, 'coverage': cov,
           'assumptions': engine.assumptions() if hasattr(engine, 'assumptions') else [],
